@@ -251,6 +251,53 @@ pub fn run(ctx: &mut Ctx) {
         };
         ctx.tie("gen", &format!("c11cmp {} {}", term_text(&a), term_text(&b)), o);
     }
+    // identifiers that differ in exactly one logical field are different in every representation, and a map keyed by
+    // both keeps both through the zero-copy representation and back
+    for _ in 0..n / 3 {
+        let p = gen_pid(&mut ctx.rng, true);
+        let q = gen_port(&mut ctx.rng, true);
+        let r = gen_ref(&mut ctx.rng, true, false);
+        let mut variants: Vec<(OwnedTerm, OwnedTerm, &str)> = vec![];
+        let mk_pid = |id, serial, creation| OwnedTerm::Pid(ExternalPid::new(p.node.clone(), id, serial, creation));
+        variants.push((OwnedTerm::Pid(p.clone()), mk_pid(p.id ^ 1, p.serial, p.creation), "pid.id"));
+        variants.push((OwnedTerm::Pid(p.clone()), mk_pid(p.id, p.serial ^ 1, p.creation), "pid.serial"));
+        variants.push((OwnedTerm::Pid(p.clone()), mk_pid(p.id, p.serial, p.creation ^ 1), "pid.creation"));
+        variants.push((OwnedTerm::Port(q.clone()), OwnedTerm::Port(ExternalPort::new(q.node.clone(), q.id ^ 1, q.creation)), "port.id"));
+        variants.push((OwnedTerm::Port(q.clone()), OwnedTerm::Port(ExternalPort::new(q.node.clone(), q.id, q.creation ^ 1)), "port.creation"));
+        variants.push((OwnedTerm::Port(q.clone()), OwnedTerm::Port(ExternalPort::new(Atom::new("other@node"), q.id, q.creation)), "port.node"));
+        let mut ids2 = r.ids.clone();
+        if let Some(x) = ids2.last_mut() {
+            *x ^= 1;
+        } else {
+            ids2.push(1);
+        }
+        variants.push((OwnedTerm::Reference(r.clone()), OwnedTerm::Reference(ExternalReference::new(r.node.clone(), r.creation, ids2)), "ref.ids"));
+        variants.push((OwnedTerm::Reference(r.clone()), OwnedTerm::Reference(ExternalReference::new(r.node.clone(), r.creation ^ 1, r.ids.clone())), "ref.creation"));
+        for (a, b, what) in variants {
+            ctx.count("one_field_pairs");
+            let (ba, bb) = (BorrowedTerm::from(&a), BorrowedTerm::from(&b));
+            if a == b || a.cmp(&b) == std::cmp::Ordering::Equal || ba == bb || ba.cmp(&bb) == std::cmp::Ordering::Equal {
+                ctx.fail("c10-logical-identity", &format!("{}: {} vs {} not told apart (owned cmp {:?}, borrowed cmp {:?})", what, term_text(&a), term_text(&b), a.cmp(&b), ba.cmp(&bb)));
+            }
+            let mut m = BTreeMap::new();
+            m.insert(a.clone(), OwnedTerm::Integer(1));
+            m.insert(b.clone(), OwnedTerm::Integer(2));
+            let map = OwnedTerm::Map(m);
+            let Ok(bytes) = erltf::encode(&map) else { continue };
+            let via_from = BorrowedTerm::from(&map).to_owned();
+            let via_dec = erltf::decode_borrowed(&bytes).map(|t| t.to_owned());
+            if erltf::encode(&via_from).ok().as_deref() != Some(&bytes[..]) {
+                ctx.fail("c10-not-reemitted", &format!("{}: map keyed by both, through BorrowedTerm::from/to_owned: {}", what, term_text(&via_from)));
+            }
+            // the zero-copy decoder does not know LOCAL_EXT; only plain-form keys go through it
+            if !bytes.contains(&121) {
+                match via_dec {
+                    Ok(t) if erltf::encode(&t).ok().as_deref() == Some(&bytes[..]) => {}
+                    other => ctx.fail("c10-not-reemitted", &format!("{}: map keyed by both, through decode_borrowed: {:?}", what, other.map(|t| term_text(&t)))),
+                }
+            }
+        }
+    }
     // generated whole terms with identifiers in local form: encode/decode/encode
     let cfg = Cfg { huge: false, ..Cfg::default() };
     for _ in 0..n / 3 {
